@@ -24,6 +24,7 @@ RULE = (
 )
 ASSUMPTIONS = [
     "future_steps == 1 (the only value the library supports)",
+    "one case runs call histories (every ordered pair of 4 layouts with colliding channel totals, as a,b,a) in a single process",
     "bounds: n<=4 (thorough 6), past_steps<=3 (thorough 4), <=3 types, <=2 dynamic channels and <=2 constants per type, d=2 (thorough +d=3)",
     "integer data mod 13: float32 arithmetic exact",
 ]
@@ -81,6 +82,9 @@ def cases(tier, seed):
                 for past in pasts:
                     out.append({"d": d, "dyn": dyn, "const": const, "order": list(orders[-1]), "past": past, "n": max(ns) - 1, "mode": "vmap"})
     out.sort(key=lambda c: (c["d"], c["n"] + c["past"], len(c["order"])))
+    # call histories in ONE process: layouts with the same channel totals, constant types and past_steps but a
+    # different dynamic/constant split, in both orders (module-level caches keyed too coarsely)
+    out.append({"d": 2, "mode": "history", "n": 3, "past": 2, "dyn": {}, "const": {}, "order": []})
     return out
 
 
@@ -126,6 +130,33 @@ def run_case(case, seed):
     import ginjax.geometric as geom
     import ginjax.ml as ml
 
+    if case["mode"] == "history":
+        menu = [
+            {"dyn": {"0,0": 2}, "const": {"0,0": 2}, "past": 2},  # 6 scalar channels: 2 dynamic x 2 steps + 2 constants
+            {"dyn": {"0,0": 1}, "const": {"0,0": 4}, "past": 2},  # 6 scalar channels: 1 dynamic x 2 steps + 4 constants
+            {"dyn": {"0,0": 1, "1,0": 1}, "const": {"0,0": 1, "1,0": 2}, "past": 2},
+            {"dyn": {"0,0": 1, "1,0": 2}, "const": {"0,0": 1, "1,0": 0}, "past": 2},
+        ]
+        v, st, tr = [], 0, 0
+        for a in menu:
+            for b in menu:
+                if a is b:
+                    continue
+                for c in (a, b, a):
+                    cc = {"d": 2, "dyn": {k: n_ for k, n_ in c["dyn"].items() if n_}, "const": {k: n_ for k, n_ in c["const"].items() if n_}, "past": c["past"], "n": case["n"], "mode": "eager"}
+                    cc["order"] = sorted(set(cc["dyn"]) | set(cc["const"]))
+                    r = run_case(cc, seed)
+                    st += r["states"]
+                    tr += r["transitions"]
+                    if r["violations"]:
+                        x = r["violations"][0]
+                        v.append(viol("C16/history/" + x["fp"].split("/", 1)[1], f"in the call history {[m['dyn'] for m in (a, b, a)]} / constants {[m['const'] for m in (a, b, a)]}: " + x["msg"], case=case))
+                        break
+                if v:
+                    break
+            if v:
+                break
+        return {"violations": v, "nt": True, "evals": 1, "states": st, "transitions": tr, "traces": 1, "outcome": "history"}
     D = case["d"]
     sp = (2, 3) if D == 2 else (2, 1, 3)
     dyn = {_kp(k): v for k, v in case["dyn"].items()}
